@@ -142,6 +142,16 @@ fn stream_find(s: &S, rdr: &mut SchedReader<'_>) -> Result<Vec<io::Result<M>>, S
     }
 }
 
+/// `Iterator::count()` called on the crate's stream iterator itself.
+fn stream_count(s: &S, rdr: &mut SchedReader<'_>) -> Result<usize, String> {
+    match s {
+        S::Top(a) => a.try_stream_find_iter(rdr).map(|it| it.count()).map_err(|e| e.to_string()),
+        S::N(a) => a.try_stream_find_iter(rdr).map(|it| it.count()).map_err(|e| e.to_string()),
+        S::C(a) => a.try_stream_find_iter(rdr).map(|it| it.count()).map_err(|e| e.to_string()),
+        S::D(a) => a.try_stream_find_iter(rdr).map(|it| it.count()).map_err(|e| e.to_string()),
+    }
+}
+
 fn by_ref(rdr: &SchedReader<'_>) -> bool {
     rdr.data.len() % 2 == 0
 }
@@ -534,6 +544,20 @@ pub fn c07_check(rep: &mut Report, c: &StreamCase, s: &S) {
                     c.to_json()
                         .with("observed", ms_json(&ms[..ms.len().min(50)]))
                         .with("expected", ms_json(&expected[..expected.len().min(50)])),
+                );
+            } else if c.data.len() % 4 == 1 && {
+                // every fourth stream: the consuming `count()` of the iterator
+                // must agree with the sequence `next()` yields
+                let mut r2 = SchedReader::new(&c.data, &c.schedule);
+                let n = with_spare(c.spare, || guard(|| stream_count(s, &mut r2)));
+                rep.eval();
+                rep.tally("stream_count_calls");
+                !matches!(n, Ok(Ok(k)) if k == expected.len())
+            } {
+                rep.violation(
+                    &format!("{}:count_method", sig_base),
+                    format!("count() on the stream iterator does not equal the number of matches next() yields ({})", expected.len()),
+                    c.to_json(),
                 );
             } else if !rdr.saw_eof() {
                 rep.violation(
